@@ -143,3 +143,35 @@ def run_both(ck, cases, gvh=None, oracle=None, want_sources=False, timeout=None)
     if want_sources:
         return res, srcs
     return res
+
+
+# ---------------------------------------------------------------------------------------
+# second reference: PUC-Rio Lua 5.3.6 (system liblua5.3), oracle/luacore/reflua.c
+# ---------------------------------------------------------------------------------------
+# 5.3 and 5.4 differ on string arithmetic (5.3 always yields a float), so coercions are left out
+REF53_PROFILE = dict(ref53=True, coerce=False)
+
+
+def build_ref(ck):
+    """compile oracle/luacore/reflua.c against liblua5.3; None when gcc / the library is missing"""
+    src = os.path.join(vlib.ORACLE, "luacore", "reflua.c")
+    out = os.path.join(vlib.WORK, "bin", "reflua53")
+    os.makedirs(os.path.dirname(out), exist_ok=True)
+    if os.path.exists(out) and os.path.getmtime(out) >= os.path.getmtime(src):
+        return out
+    rc, so, se = vlib.sh(["gcc", "-O1", src, "-o", out, "-llua5.3"], timeout=120)
+    if rc != 0:
+        ck.log("reference Lua (liblua5.3) runner not built: " + se[-300:])
+        return None
+    return out
+
+
+def run_ref(ref, cases, timeout=10):
+    """run the (already rendered) cases on PUC-Lua 5.3; returns normalised lines"""
+    lines = []
+    for i, c in enumerate(cases):
+        args = ",".join(c.get("args") or []) or "-"
+        lines.append("p%d %s args=%s" % (i, c["_src"].encode("latin1").hex(), args))
+    out = vlib.run_lines_resilient(ref, [], lines, per_case_timeout=timeout)
+    m = dict(norm_line(l) for l in out if l)
+    return [m.get("p%d" % i, "MISSING") for i in range(len(cases))]
